@@ -202,9 +202,15 @@ class OnDisconnect(Contract):
         sess = old.get(W.state, 'session')
         has_session = Not(sess.is_none) if isinstance(sess, SOpt) else BoolVal(sess is not None)
         c, cg = st.get(W.state, 'closed'), st.get(W.state, 'closing')
-        return [('closed-set', c if not isinstance(c, bool) else BoolVal(c)),
-                ('closing-cleared', Not(cg) if not isinstance(cg, bool) else BoolVal(not cg)),
-                ('session-has-no-socket', Implies(has_session, sock_is_none(st.get(W.session, '_sock'))), ('C13',))]
+        out = [('closed-set', c if not isinstance(c, bool) else BoolVal(c)),
+               ('closing-cleared', Not(cg) if not isinstance(cg, bool) else BoolVal(not cg)),
+               ('session-has-no-socket', Implies(has_session, sock_is_none(st.get(W.session, '_sock'))), ('C13',))]
+        if ip.reading == 'body':
+            # "released" means closed, not merely forgotten: the socket goes through _close_socket (C13, C10)
+            from pyvc.contracts import calls_since
+            n = len(calls_since(ip, old, 'WebsocketSession._close_socket'))
+            out.append(('the-socket-is-closed-not-just-forgotten', Implies(has_session, BoolVal(n >= 1)), ('C13', 'C10', 'C08')))
+        return out
 
 
 # ------------------------------------------------------------------------------- _on_close
@@ -730,5 +736,10 @@ class WsExit(Contract):
         W = st.ghost['W']
         sess = old.get(W.state, 'session')
         has_session = Not(sess.is_none) if isinstance(sess, SOpt) else BoolVal(sess is not None)
-        return [('socket-released', Implies(has_session, sock_is_none(st.get(W.session, '_sock')))),
-                ('exception-not-swallowed', BoolVal(res is None or res is False))]
+        out = [('socket-released', Implies(has_session, sock_is_none(st.get(W.session, '_sock')))),
+               ('exception-not-swallowed', BoolVal(res is None or res is False))]
+        if ip.reading == 'body':
+            from pyvc.contracts import calls_since
+            n = len(calls_since(ip, old, 'WebsocketSession._close_socket'))
+            out.append(('the-socket-is-closed-not-just-forgotten', Implies(has_session, BoolVal(n >= 1)), ('C13',)))
+        return out
